@@ -859,3 +859,917 @@ Proof.
           | rewrite nv_ks_grid; exact h6_neq]|].
   vmr.
 Qed.
+
+(* ====================================================================== *)
+(* C09, C10, C14: one pool history                                         *)
+(* ====================================================================== *)
+
+Definition nv_y : list Qc := [qc 1 1; qc (-2) 1; qc 1 2; qc 3 1].
+Definition nv_bs : list (boundary Qc) := [mkBnd FIRST 2 (qc 1 3); mkBnd LAST 1 (qc (-1) 1)].
+
+(* two grids; windows; sa (slot 6), sb (7), sh (8) built through the public
+   constructors; a sum; a call refused for differing grids and one refused for
+   an invalid window; the in-place updates sa += sb, sa *= 3; sb moved to slot
+   12 and the moved-from object shown and evaluated; sa /= 1/2; an operator
+   applied; forms; checked accesses at the indices 2^64-1 and 7; the generator;
+   cubic interpolation; a self move-assignment; copy, linear combination,
+   comparison, in-place subtraction *)
+Definition nv_hist : list (op Qc) :=
+  [GridNew 0 g6; GridNew 1 h6;
+   SupNew 2 0 1 4; SupNew 3 0 2 6; SupNew 4 1 2 5; SupNew 5 0 1 5;
+   SplNew 6 2 2 (scoefs sa); SplNew 7 1 3 (scoefs sb); SplNew 8 1 4 (scoefs sh);
+   SplAdd 9 6 7;
+   SplAdd 10 6 8;
+   SupNew 11 0 4 2;
+   SplIAdd 6 7; SplIMul 6 (qc 3 1);
+   SplMove 12 7; Show 7; SplEval 7 (qc 9 5);
+   SplIDiv 6 (qc 1 2);
+   Apply 13 (PDivS (PMul (PSpl 12) (PDer 1)) (ScI (-2))) 6;
+   Bilin (PDer 1) (PSpl 12) 6 9; Lin (PPos 1) 6;
+   SupAt 2 18446744073709551615; SupIvl 3 18446744073709551615; GridAt 0 7;
+   Gen1 20 2 nv_ks;
+   Interp 30 3 5 nv_y nv_bs; SplEval 30 (qc 1 1);
+   SupMoveAssign 3 3; SplCopy 14 9; SplLinComb 15 [qc 2 1; qc (-1) 1] [12; 7]%nat;
+   SplEq 9 14; SplISub 9 12].
+
+Definition kind {A} (x : outcome A) : option (err + ub) :=
+  match x with Ok _ => None | Throw e => Some (inl e) | UB k => Some (inr k) end.
+
+Ltac typed_fin :=
+  first [ reflexivity | exact I | discriminate | nfact | qcneq | (vm_compute; lia)
+        | (repeat constructor; fail) ].
+Ltac typed_tac :=
+  cbn [op_typed]; unfold is_grid, is_sup, is_spl, pexpr_typed; cbn [slots_ok divisors_ok];
+  unfold is_spl;
+  repeat first [split | eexists]; try typed_fin.
+(* one step of [typed_history]: the operation is well-typed in the current
+   state (solved by [tac]); the next state is computed *)
+Ltac th_step_with tac :=
+  match goal with
+  | |- typed_history ?solver ?st (?o :: ?r) =>
+      change (op_typed st o /\ typed_history solver (fst (step solver st o)) r);
+      split; [ tac |
+        let st' := eval vm_compute in (fst (step solver st o)) in
+        replace (fst (step solver st o)) with st' by (vm_compute; reflexivity) ]
+  end.
+Ltac th_step := th_step_with typed_tac.
+
+Lemma nv_hist_typed : typed_history gauss_solve [] nv_hist.
+Proof.
+  unfold nv_hist. do 29 th_step.
+  (* SplLinComb: both operands are splines of order 1 *)
+  th_step_with ltac:(cbn [op_typed]; split; [|split; vmr];
+                     eexists; split; [repeat constructor|];
+                     intros s s' [<-|[<-|[]]] [<-|[<-|[]]]; reflexivity).
+  do 2 th_step. exact I.
+Qed.
+
+Example NV_C09_no_ub_history :
+  typed_history gauss_solve [] nv_hist /\
+  Forall clean (snd (run gauss_solve [] nv_hist)) /\ StInv (fst (run gauss_solve [] nv_hist)) /\
+  (* what the calls returned: three library exceptions, everything else succeeded *)
+  map kind (snd (run gauss_solve [] nv_hist))
+  = [None; None; None; None; None; None; None; None; None; None;
+     Some (inl DIFFERING_GRIDS); Some (inl INCONSISTENT_DATA); None; None;
+     None; None; None; None; None; None; None;
+     Some (inl INVALID_ACCESS); None; Some (inl INVALID_ACCESS); None;
+     None; None; None; None; None; None; None] /\
+  (* slot 6 after sa += sb; sa *= 3; sa /= 1/2 *)
+  (exists r, lookup (fst (run gauss_solve [] nv_hist)) 6 = Some (VSpl r) /\
+     coefsQ r = [[6; -12; 18]; [15; 2; -2]; [-6; 15; 0]; [9 # 2; -12; 0]]%Q).
+Proof.
+  split; [exact nv_hist_typed|].
+  destruct (C09_no_ub_history Qc QcOps Qc_laws gauss_solve (@gauss_solve_len Qc QcOps) nv_hist []
+              (C10_init Qc QcOps) nv_hist_typed) as [H1 H2].
+  split; [exact H1|]. split; [exact H2|]. split; [vmr|].
+  eexists. split; vmr.
+Qed.
+
+(* one step, with the model's solver, in the state reached after 14 operations:
+   the state invariant holds there (C10) and the call is well-typed *)
+Definition st14 : state Qc := fst (run gauss_solve [] (firstn 14 nv_hist)).
+
+Lemma st14_inv : StInv st14.
+Proof.
+  apply (C10_history_with_model_solver (firstn 14 nv_hist)).
+  cbn [firstn nv_hist].
+  repeat (apply Forall_cons; [first [exact I | vmr]|]). apply Forall_nil.
+Qed.
+
+Example NV_C09_no_ub :
+  match snd (step gauss_solve st14 (Bilin (PDer 1) (PSpl 7) 6 9)) with
+  | Throw BadOptionalAccess | Throw StdOutOfRange | UB _ => False
+  | _ => True
+  end /\
+  snd (step gauss_solve st14 (Bilin (PDer 1) (PSpl 7) 6 9)) = Ok [TF (qc 130327 8640)].
+Proof.
+  split.
+  - apply (C09_no_ub_with_model_solver st14 _ st14_inv).
+    split; [split; [exact I | reflexivity]|].
+    split; [split; [eexists; vmr | reflexivity]|]. split; eexists; vmr.
+  - vm_compute. apply (f_equal (@Ok (obs Qc))). f_equal. f_equal. qc.
+Qed.
+
+(* index conversions and checked access at the largest index value *)
+Example NV_C09_index :
+  interval_index (win 1 4) 18446744073709551615 = None /\
+  rel_from_abs (win 1 4) 18446744073709551615 = None /\
+  abs_from_rel (win 1 4) 18446744073709551615 = Throw UNDETERMINED /\
+  sup_at (win 1 4) 18446744073709551615 = Throw INVALID_ACCESS /\
+  sup_at (win 1 4) 2 = Ok (qc 2 1) /\ abs_from_rel (win 1 4) 2 = Ok 3%N /\
+  interval_index (win 1 4) 3 = None /\ interval_index (win 1 4) 2 = Some 1%N.
+Proof.
+  assert (Hs : SInv (win 1 4)) by sinv.
+  split; [rewrite (C09_interval_index Qc (win 1 4) _ Hs) by vmr; vmr|].
+  split; [rewrite (C09_relative_index Qc (win 1 4) _ Hs) by vmr; vmr|].
+  split; [rewrite (C09_absolute_index Qc (win 1 4) _ Hs) by vmr; vmr|].
+  (* the right-hand side of C09_support_at at 2^64-1 must not be evaluated (it
+     converts the index to a unary number): it is None because the index is
+     beyond the length of the view *)
+  split; [rewrite (C09_support_at Qc (win 1 4) _ Hs) by vmr;
+          rewrite nnth_none by nfact; reflexivity|].
+  split; [rewrite (C09_support_at Qc (win 1 4) _ Hs) by vmr; vmr|].
+  split; [rewrite (C09_absolute_index Qc (win 1 4) _ Hs) by vmr; vmr|].
+  split; [rewrite (C09_interval_index Qc (win 1 4) _ Hs) by vmr; vmr|].
+  rewrite (C09_interval_index Qc (win 1 4) _ Hs) by vmr; vmr.
+Qed.
+
+Example NV_C09_transform_total :
+  (exists t, transform (elab e5) c5 g6 3 = Ok t /\ t <> [] /\ length t = 6%nat) /\
+  transform (elab (EMul (ESpl sh) (EDer 1))) c5 g6 3 = Throw DIFFERING_GRIDS.
+Proof.
+  split.
+  - destruct (C09_transform_total Qc QcOps Qc_laws e5 c5 g6 3) as [(t & H1 & H2 & H3) | H];
+      [split; [split; [exact se_inv | exact I] | exact I] | exact g6_inv | vmr | discriminate | |].
+    + exists t. auto.
+    + exfalso. revert H. vm_compute. discriminate.
+  - vmr.
+Qed.
+
+Lemma nv_hist_sized : Forall op_sized nv_hist.
+Proof.
+  unfold nv_hist. repeat (apply Forall_cons; [first [exact I | vmr]|]). apply Forall_nil.
+Qed.
+
+Example NV_C10_history :
+  Forall op_sized nv_hist /\ StInv (fst (run gauss_solve [] nv_hist)) /\
+  (* in particular the moved-from slot 7 and the interpolant in slot 30 are valid *)
+  (exists m, lookup (fst (run gauss_solve [] nv_hist)) 7 = Some (VSpl m) /\ SplInv m /\
+             m = mkSpl (sup_empty_on g6) 1 []) /\
+  (exists s, lookup (fst (run gauss_solve [] nv_hist)) 30 = Some (VSpl s) /\ SplInv s /\
+             sord s = 3%nat /\ ssup s = win 1 5).
+Proof.
+  pose proof (C10_history Qc QcOps Qc_laws gauss_solve (@gauss_solve_len Qc QcOps) nv_hist
+                nv_hist_sized) as H.
+  split; [exact nv_hist_sized|]. split; [exact H|]. split.
+  - eexists. split; [vmr|]. split; [|vmr].
+    exact (H 7%nat _ ltac:(vmr)).
+  - eexists. split; [vmr|]. split; [|split; vmr].
+    exact (H 30%nat _ ltac:(vmr)).
+Qed.
+
+(* the move of sb from slot 7 to slot 12 (operation 14 of the history) *)
+Example NV_C10_moved_from_spline :
+  lookup st14 7 = Some (VSpl sb) /\
+  lookup (fst (step gauss_solve st14 (SplMove 12 7))) 7
+  = Some (VSpl (mkSpl (sup_empty_on g6) 1 [])) /\
+  lookup (fst (step gauss_solve st14 (SplMove 12 7))) 12 = Some (VSpl sb) /\
+  SplInv (mkSpl (sup_empty_on g6) 1 []) /\
+  StInv (fst (step gauss_solve st14 (SplMove 12 7))) /\
+  spl_eval (mkSpl (sup_empty_on g6) 1 []) (qc 9 5) = Ok f0.
+Proof.
+  assert (H7 : lookup st14 7 = Some (VSpl sb)) by vmr.
+  destruct (C10_moved_from_spline Qc QcOps gauss_solve st14 12 7 sb ltac:(discriminate) H7)
+    as [H1 H2].
+  destruct (C10_moved_from_spline_valid Qc QcOps sb sb_inv) as (H3 & _).
+  split; [exact H7|]. split; [exact H1|]. split; [exact H2|]. split; [exact H3|].
+  split; [|apply (C02_no_interval Qc QcOps _ _ H3); vmr].
+  apply (C10_step Qc QcOps Qc_laws gauss_solve (@gauss_solve_len Qc QcOps) st14 _ st14_inv). exact I.
+Qed.
+
+(* C14 *)
+Lemma not_targeted (i : nat) (ops : list (op Qc)) :
+  forallb (fun o => negb (existsb (Nat.eqb i) (targets o))) ops = true ->
+  forall o, In o ops -> ~ In i (targets o).
+Proof.
+  intros H o Ho Hi. rewrite forallb_forall in H. specialize (H o Ho).
+  apply negb_true_iff in H. assert (E : existsb (Nat.eqb i) (targets o) = true).
+  { apply existsb_exists. exists i. split; [exact Hi | apply Nat.eqb_refl]. }
+  congruence.
+Qed.
+
+(* slot 8 (sh) is written by operation 8 and by nothing after it *)
+Definition st9 : state Qc := fst (run gauss_solve [] (firstn 9 nv_hist)).
+
+Example NV_C14_frame_history :
+  lookup (fst (run gauss_solve st9 (skipn 9 nv_hist))) 8 = lookup st9 8 /\
+  lookup st9 8 = Some (VSpl sh) /\
+  fst (run gauss_solve st9 (skipn 9 nv_hist)) = fst (run gauss_solve [] nv_hist).
+Proof.
+  split; [|split; vmr].
+  apply (C14_frame_history Qc QcOps gauss_solve). apply not_targeted. vmr.
+Qed.
+
+Example NV_C14_frame :
+  (* sa += sb writes slot 6 only *)
+  lookup (fst (step gauss_solve st14 (SplIAdd 6 7))) 7 = lookup st14 7 /\
+  lookup (fst (step gauss_solve st14 (SplIAdd 6 7))) 6 <> lookup st14 6 /\
+  (* a refused call changes nothing at all *)
+  snd (step gauss_solve st14 (SplAdd 10 6 8)) = Throw DIFFERING_GRIDS /\
+  fst (step gauss_solve st14 (SplAdd 10 6 8)) = st14 /\
+  (* an observer changes nothing *)
+  (forall i, lookup (fst (step gauss_solve st14 (SplEval 6 (qc 9 5)))) i = lookup st14 i) /\
+  (* a copy is independent of its source *)
+  lookup (fst (step gauss_solve (fst (step gauss_solve st14 (SplCopy 14 9))) (SplIMul 14 (qc 2 1)))) 9
+  = lookup st14 9 /\
+  lookup (fst (step gauss_solve st14 (SplCopy 14 9))) 14 = lookup st14 9.
+Proof.
+  split; [apply (C14_frame Qc QcOps gauss_solve); cbn [targets In]; intros [H|[]]; discriminate H|].
+  split; [vm_compute; discriminate|].
+  assert (Ht : snd (step gauss_solve st14 (SplAdd 10 6 8)) = Throw DIFFERING_GRIDS) by vmr.
+  split; [exact Ht|].
+  split; [exact (C14_throw_changes_nothing Qc QcOps gauss_solve st14 _ _ Ht)|].
+  split; [exact (C14_observers_change_nothing Qc QcOps gauss_solve st14 (SplEval 6 (qc 9 5)) eq_refl)|].
+  split.
+  - apply (C14_copy_independent Qc QcOps gauss_solve st14 14 9); [discriminate|].
+    cbn [targets In]. intros [H|[]]; discriminate H.
+  - destruct (lookup st14 9) as [[g|s|s]|] eqn:E; try (revert E; vm_compute; discriminate).
+    apply (C14_copy_value Qc QcOps gauss_solve st14 14 9 s E).
+    intros t Ht'. revert Ht'. vm_compute. discriminate.
+Qed.
+
+Example NV_C14_writes_are_targets :
+  exists ws r, eval_op gauss_solve st14 (SplMove 12 7) = Ok (ws, r) /\ map fst ws = [7; 12]%nat /\
+    forall w, In w ws -> In (fst w) (targets (SplMove (F:=Qc) 12 7)).
+Proof.
+  destruct (eval_op gauss_solve st14 (SplMove 12 7)) as [[ws r]| |] eqn:E;
+    try (revert E; vm_compute; discriminate).
+  exists ws, r. split; [reflexivity|]. split.
+  - revert E. vm_compute. intros [= <- _]. reflexivity.
+  - exact (C14_writes_are_targets Qc QcOps gauss_solve st14 _ ws r E).
+Qed.
+
+(* ====================================================================== *)
+(* C11                                                                     *)
+(* ====================================================================== *)
+
+Example NV_C11_grid :
+  (exists g, grid_ctor g6 = Ok g) /\ grid_ctor g6 = Ok g6 /\
+  grid_ctor [qc 0 1; qc 1 2; qc 1 2; qc 2 1] = Throw INCONSISTENT_DATA /\
+  grid_ctor [qc 3 1] = Throw MISSING_DATA /\
+  grid_ctor [Fin (qc 0 1); NaN; Fin (qc 2 1)] = Throw INCONSISTENT_DATA.
+Proof.
+  split; [apply (C11_grid_iff Qc QcOps g6); split; [nfact | exact (proj2 (proj2 g6_inv))]|].
+  split; [vmr|]. split; [|split].
+  - apply (C11_grid_not_increasing Qc QcOps). split; [nfact|].
+    intros H. apply steadily_increasing in H. revert H. vm_compute. discriminate.
+  - apply (C11_grid_too_short Qc QcOps). vmr.
+  - apply C11_grid_nan_inconsistent; [vm_compute; lia | right; left; reflexivity].
+Qed.
+
+Example NV_C11_support :
+  sup_ctor g6 1 4 = Ok (win 1 4) /\ sup_ctor g6 0 0 = Ok (win 0 0) /\
+  sup_ctor g6 4 2 = Throw INCONSISTENT_DATA /\ sup_ctor g6 3 7 = Throw INCONSISTENT_DATA /\
+  sup_ctor g6 2 2 = Throw INCONSISTENT_DATA.
+Proof.
+  split; [apply (C11_support_accepted Qc g6); right; split; nfact|].
+  split; [apply (C11_support_accepted Qc g6); left; split; reflexivity|].
+  split; [|split]; apply (C11_support_refused Qc g6); intros [[H _]|[H1 H2]];
+    first [discriminate H | revert H1; nfact | revert H2; nfact].
+Qed.
+
+Example NV_C11_spline :
+  spl_ctor 2 (win 1 4) (scoefs sa) = Ok sa /\
+  spl_ctor 2 (win 1 4) [[qc 1 1; qc 2 1; qc 3 1]] = Throw INCONSISTENT_DATA /\
+  spl_ctor 1 (win 0 0) [] = Ok sz /\
+  spl_ctor 1 (win 2 3) [] = Ok (mkSpl (win 2 3) 1 []).
+Proof.
+  split; [apply (C11_spline_accepted Qc 2 (win 1 4)); [sinv | vmr]|].
+  split; [apply (C11_spline_refused Qc 2 (win 1 4)); [sinv | nfact]|].
+  split; [apply (C11_spline_accepted Qc 1 (win 0 0)); [sinv | vmr]|].
+  apply (C11_spline_accepted Qc 1 (win 2 3)); [sinv | vmr].
+Qed.
+
+Example NV_C11_generator :
+  (exists gn, gen_ctor1 nv_ks = Ok gn) /\
+  gen_ctor1 [qc 1 1; qc 1 1; qc 1 1] = Throw MISSING_DATA /\
+  gen_ctor1 [qc 0 1; qc 2 1; qc 1 1] = Throw INCONSISTENT_DATA /\
+  gen_ctor2 nv_ks g6 = Ok (mkGen g6 nv_ks) /\ gen_ctor2 nv_ks h6 = Throw INCONSISTENT_DATA /\
+  generate_bsplines 9 nv_ks = Throw UNDETERMINED /\
+  (exists l, generate_bsplines 1 nv_ks = Ok l /\ length l = 7%nat /\ Forall SplInv l).
+Proof.
+  split; [apply (C11_generator_iff Qc QcOps Qc_laws nv_ks nv_ks_len);
+          split; [exact nv_ks_nondecreasing | exact nv_ks_two_distinct]|].
+  split; [apply (C11_generator_constant Qc QcOps Qc_laws)|].
+  { intros (i & j & a & b & Ha & Hb & Hab). apply Hab.
+    assert (E : forall i a, nth_error [qc 1 1; qc 1 1; qc 1 1] i = Some a -> a = qc 1 1).
+    { intros [|[|[|[|k]]]] c Hc; cbn [nth_error] in Hc; try discriminate Hc; congruence. }
+    rewrite (E _ _ Ha), (E _ _ Hb). reflexivity. }
+  split; [apply (C11_generator_descent Qc QcOps Qc_laws)|].
+  { exists 0%nat, 1%nat, (qc 0 1), (qc 2 1). split; [reflexivity|]. split; [reflexivity|]. qcneq. }
+  { intros H. specialize (H 1%nat (qc 2 1) (qc 1 1) eq_refl eq_refl). revert H. vm_compute. discriminate. }
+  split; [rewrite (C11_generator_grid_match Qc QcOps Qc_laws nv_ks g6 nv_ks_nondecreasing
+                     nv_ks_two_distinct nv_ks_len (eq_sym nv_ks_grid)), nv_ks_grid; reflexivity|].
+  split; [apply (C11_generator_grid_mismatch Qc QcOps Qc_laws nv_ks h6 nv_ks_nondecreasing
+                   nv_ks_two_distinct nv_ks_len); rewrite nv_ks_grid; exact h6_neq|].
+  split; [apply (C11_generate_too_few Qc QcOps Qc_laws nv_ks 9 nv_ks_nondecreasing
+                   nv_ks_two_distinct nv_ks_len); vm_compute; lia|].
+  destruct (C11_generate_valid Qc QcOps Qc_laws nv_ks 1 nv_ks_nondecreasing nv_ks_two_distinct
+              nv_ks_len) as (l & H1 & H2 & H3 & _); [vm_compute; lia|].
+  exists l. auto.
+Qed.
+
+Example NV_C11_lincomb :
+  lin_comb [qc 1 1; qc 2 1] [sb; se; sc] = Throw INCONSISTENT_DATA /\
+  @lin_comb Qc QcOps [] [] = Throw MISSING_DATA /\
+  lin_comb [qc 1 1; qc 2 1; qc 3 1] [sb; sh; se] = Throw DIFFERING_GRIDS /\
+  (exists r, lin_comb [qc 2 1; qc (-1) 1; qc 1 3] [sb; se; sc] = Ok r /\ SplInv r /\ sord r = 1%nat).
+Proof.
+  split; [apply (C11_lincomb_count Qc QcOps); discriminate|].
+  split; [apply (C11_lincomb_empty Qc QcOps)|].
+  split; [apply (C11_lincomb_differing Qc QcOps Qc_laws [qc 1 1; qc 2 1; qc 3 1] sb [sh; se] eq_refl);
+          exists sh; split; [right; left; reflexivity | exact h6_neq]|].
+  destruct (C11_lincomb_valid Qc QcOps Qc_laws [qc 2 1; qc (-1) 1; qc 1 3] sb [se; sc] eq_refl)
+    as (r & H1 & H2 & H3 & _).
+  { apply Forall_cons; [exact sb_inv|]. apply Forall_cons; [exact se_inv|].
+    apply Forall_cons; [exact sc_inv | apply Forall_nil]. }
+  { intros s [<- | [<- | [<- | []]]]; split; reflexivity. }
+  exists r. auto.
+Qed.
+
+Lemma nv_bs_ok : bnd_ok 3 nv_bs.
+Proof. apply Forall_cons; [cbn; lia|]. apply Forall_cons; [cbn; lia | apply Forall_nil]. Qed.
+
+Example NV_C11_interp :
+  interp_system 3 (win 1 5) [qc 1 1; qc 2 1; qc 3 1] nv_bs = Throw INCONSISTENT_DATA /\
+  interp_system 3 (win 2 3) [qc 1 1] nv_bs = Throw UNDETERMINED /\
+  interp_system 3 (win 1 5) nv_y [mkBnd FIRST 4 (qc 1 3); mkBnd LAST 1 (qc (-1) 1)] = Throw UNDETERMINED /\
+  interp_system 3 (win 1 5) nv_y [mkBnd FIRST 2 (qc 1 3); mkBnd LAST 0 (qc (-1) 1)] = Throw UNDETERMINED /\
+  (exists rows, interp_system 3 (win 1 5) nv_y nv_bs = Ok rows /\ length rows = 12%nat).
+Proof.
+  assert (Hs : SInv (win 1 5)) by sinv.
+  split; [apply (C11_interp_count Qc QcOps 3 (win 1 5) _ nv_bs Hs); nfact|].
+  split; [apply (C11_interp_few Qc QcOps 3 (win 2 3)); [sinv | vmr | vmr]|].
+  split; [apply (C11_interp_bad_derivative Qc QcOps 3 (win 1 5) nv_y _ Hs g6_inv); [vmr | nfact|];
+          intros H; apply Forall_inv in H; cbn in H; lia|].
+  split; [apply (C11_interp_bad_derivative Qc QcOps 3 (win 1 5) nv_y _ Hs g6_inv); [vmr | nfact|];
+          intros H; apply Forall_inv_tail, Forall_inv in H; cbn in H; lia|].
+  exact (C11_interp_valid Qc QcOps 3 (win 1 5) nv_y nv_bs Hs g6_inv ltac:(lia) ltac:(vmr)
+           ltac:(nfact) nv_bs_ok eq_refl).
+Qed.
+
+(* ====================================================================== *)
+(* C12: cubic interpolation of four nodes, s''(first) = 1/3, s'(last) = -1   *)
+(* ====================================================================== *)
+
+Definition nv_rows : list (row Qc) :=
+  match interp_system 3 (win 1 5) nv_y nv_bs with Ok r => r | _ => [] end.
+Lemma nv_rows_eq : interp_system 3 (win 1 5) nv_y nv_bs = Ok nv_rows.
+Proof. vmr. Qed.
+(* the solution vector produced by the model's Gauss solver *)
+Definition nv_c : list Qc := gauss_solve 12 nv_rows.
+
+Lemma solves_of_check (rows : list (row Qc)) (c : list Qc) :
+  forallb (fun r => Qc_eqb (row_apply r c) (rrhs r)) rows = true -> solves rows c.
+Proof. intros H r Hr. rewrite forallb_forall in H. apply qc_eq, H, Hr. Qed.
+
+Lemma nv_c_solves : solves nv_rows nv_c.
+Proof. apply solves_of_check. vmr. Qed.
+Lemma nv_c_solves' : solves nv_rows (gauss_solve 12 nv_rows).
+Proof. apply solves_of_check. vmr. Qed.
+
+Example NV_C12_system_ok :
+  exists rows, interp_system 3 (win 1 5) nv_y nv_bs = Ok rows /\ length rows = 12%nat.
+Proof.
+  exact (C12_system_ok Qc QcOps 3 (win 1 5) nv_y nv_bs ltac:(sinv) g6_inv ltac:(lia) ltac:(vmr)
+           ltac:(nfact) nv_bs_ok eq_refl).
+Qed.
+
+Example NV_C12_spec :
+  exists s, interp_build 3 (win 1 5) nv_c = Ok s /\ SplInv s /\ ssup s = win 1 5 /\ sord s = 3%nat /\
+    coefsQ s = [[-2881 # 1824; -3367 # 912; 1969 # 456; 631 # 228];
+                [-6685 # 7296; 10003 # 1824; 1213 # 456; -883 # 114];
+                [7157 # 2432; 857 # 608; -967 # 456; 469 # 1026]]%Q /\
+    (* the nodes 1/2, 3/2, 2, 7/2 are interpolated, from both sides *)
+    peval (piece s 1) (qc 1 2 - mid g6 1)%F = qc 1 1 /\
+    peval (piece s 1) (qc 3 2 - mid g6 1)%F = qc (-2) 1 /\
+    peval (piece s 2) (qc 3 2 - mid g6 2)%F = qc (-2) 1 /\
+    peval (piece s 2) (qc 2 1 - mid g6 2)%F = qc 1 2 /\
+    peval (piece s 3) (qc 2 1 - mid g6 3)%F = qc 1 2 /\
+    peval (piece s 3) (qc 7 2 - mid g6 3)%F = qc 3 1 /\
+    (* first and second derivatives are continuous at the interior nodes *)
+    dval (piece s 1) 1 (qc 3 2) (mid g6 1) = dval (piece s 2) 1 (qc 3 2) (mid g6 2) /\
+    dval (piece s 1) 2 (qc 3 2) (mid g6 1) = dval (piece s 2) 2 (qc 3 2) (mid g6 2) /\
+    dval (piece s 2) 1 (qc 2 1) (mid g6 2) = dval (piece s 3) 1 (qc 2 1) (mid g6 3) /\
+    dval (piece s 2) 2 (qc 2 1) (mid g6 2) = dval (piece s 3) 2 (qc 2 1) (mid g6 3) /\
+    (* the boundary conditions *)
+    dval (piece s 1) 2 (qc 1 2) (mid g6 1) = qc 1 3 /\
+    dval (piece s 3) 1 (qc 7 2) (mid g6 3) = qc (-1) 1.
+Proof.
+  destruct (C12_spec Qc QcOps Qc_laws 3 (win 1 5) nv_y nv_bs nv_rows nv_c ltac:(sinv) g6_inv
+              ltac:(lia) ltac:(vmr) ltac:(nfact) nv_bs_ok eq_refl nv_rows_eq ltac:(vmr) nv_c_solves)
+    as (s & Hs & Hi & Hw & Ho & Hv & Hc & Hf & Hl).
+  exists s. split; [exact Hs|]. split; [exact Hi|]. split; [exact Hw|]. split; [exact Ho|].
+  assert (I1 : imem 1 (win 1 5)) by (split; nfact).
+  assert (I2 : imem 2 (win 1 5)) by (split; nfact).
+  assert (I3 : imem 3 (win 1 5)) by (split; nfact).
+  destruct (Hv 1%N I1) as [V1 V1']. destruct (Hv 2%N I2) as [V2 V2']. destruct (Hv 3%N I3) as [V3 V3'].
+  pose proof (Hc 1%N 1%nat I1 I2 ltac:(lia)) as C11. pose proof (Hc 1%N 2%nat I1 I2 ltac:(lia)) as C12.
+  pose proof (Hc 2%N 1%nat I2 I3 ltac:(lia)) as C21. pose proof (Hc 2%N 2%nat I2 I3 ltac:(lia)) as C22.
+  pose proof (Hf (mkBnd FIRST 2 (qc 1 3)) (or_introl eq_refl) eq_refl) as B1.
+  pose proof (Hl (mkBnd LAST 1 (qc (-1) 1)) (or_intror (or_introl eq_refl)) eq_refl) as B2.
+  split; [subst_ok Hs; vmr|].
+  split; [exact V1|]. split; [exact V1'|]. split; [exact V2|]. split; [exact V2'|].
+  split; [exact V3|]. split; [exact V3'|]. split; [exact C11|]. split; [exact C12|].
+  split; [exact C21|]. split; [exact C22|]. split; [exact B1 | exact B2].
+Qed.
+
+(* the same through [interpolate] with the model's solver *)
+Example NV_C12_interpolate :
+  exists s, interpolate gauss_solve 3 (win 1 5) nv_y nv_bs = Ok s /\ SplInv s /\ ssup s = win 1 5 /\
+    sord s = 3%nat /\ spl_eval s (qc 3 2) = Ok (qc (-2) 1) /\ spl_eval s (qc 1 1) = Ok (qc (-2881) 1824).
+Proof.
+  destruct (C12_interpolate Qc QcOps Qc_laws gauss_solve 3 (win 1 5) nv_y nv_bs ltac:(sinv) g6_inv
+              ltac:(lia) ltac:(vmr) ltac:(nfact) nv_bs_ok eq_refl)
+    as (s & Hs & Hi & Hw & Ho & _).
+  { intros rows Hr. rewrite (ok_inj _ _ _ Hr nv_rows_eq).
+    assert (E : length nv_rows = 12%nat) by vmr. rewrite E.
+    split; [vmr | exact nv_c_solves']. }
+  exists s. split; [exact Hs|]. split; [exact Hi|]. split; [exact Hw|]. split; [exact Ho|].
+  subst_ok Hs. split; okqc.
+Qed.
+
+Example NV_C12_default_boundaries :
+  bnd_ok 3 (@default_boundaries Qc QcOps 3) /\ length (@default_boundaries Qc QcOps 3) = 2%nat /\
+  @default_boundaries Qc QcOps 3 = [mkBnd FIRST 1 f0; mkBnd LAST 1 f0] /\
+  (exists s, interpolate gauss_solve 3 (win 1 5) nv_y (default_boundaries 3) = Ok s /\ SplInv s).
+Proof.
+  destruct (C12_default_boundaries_ok Qc QcOps 3 ltac:(lia)) as [H1 H2].
+  split; [exact H1|]. split; [exact H2|]. split; [vmr|].
+  destruct (C12_system_ok Qc QcOps 3 (win 1 5) nv_y (default_boundaries 3) ltac:(sinv) g6_inv
+              ltac:(lia) ltac:(vmr) ltac:(nfact) H1 H2) as (rows & Hr & _).
+  destruct (C12_interpolate Qc QcOps Qc_laws gauss_solve 3 (win 1 5) nv_y (default_boundaries 3)
+              ltac:(sinv) g6_inv ltac:(lia) ltac:(vmr) ltac:(nfact) H1 H2)
+    as (s & Hs & Hi & _).
+  { intros rows' Hr'. subst_ok Hr'. split; [vmr | apply solves_of_check; vmr]. }
+  exists s. auto.
+Qed.
+
+Example NV_C12_refusals :
+  interp_system 3 (win 1 5) [qc 1 1; qc 2 1; qc 3 1] nv_bs = Throw INCONSISTENT_DATA /\
+  interp_system 3 (win 2 3) [qc 1 1] nv_bs = Throw UNDETERMINED.
+Proof.
+  split; [apply (C12_count_mismatch Qc QcOps 3 (win 1 5)); [sinv | nfact]|].
+  apply (C12_too_few Qc QcOps 3 (win 2 3)); [sinv | vmr | vmr].
+Qed.
+
+(* ====================================================================== *)
+(* C13                                                                     *)
+(* ====================================================================== *)
+
+Lemma win_inv (a b : N) : sup_valid (win a b) = true -> SInv (win a b).
+Proof. intros H. apply SInv_of_valid; [vmr | exact H]. Qed.
+
+(* overlapping windows 1..3 and 2..5; touching windows; windows separated by a
+   gap, whose hull contains the points 2 and 3 that belong to neither *)
+Example NV_C13_union_hull :
+  (exists u, calc_union (win 1 4) (win 2 6) = Ok u /\ SInv u /\ u = win 1 6 /\
+             forall i, mem i u <-> hull_mem i (win 1 4) (win 2 6)) /\
+  (exists u, calc_union (win 0 2) (win 4 6) = Ok u /\ u = win 0 6 /\
+             (mem 3 u <-> hull_mem 3 (win 0 2) (win 4 6)) /\ mem 3 u /\
+             ~ mem 3 (win 0 2) /\ ~ mem 3 (win 4 6)) /\
+  calc_union (win 0 2) (win 1 4) = Ok (win 0 4) /\
+  calc_union (win 0 0) (win 2 6) = Ok (win 2 6) /\
+  calc_union (win 1 4) (win 2 6) = calc_union (win 2 6) (win 1 4) /\
+  calc_union (win 1 4) (win 1 4) = Ok (win 1 4).
+Proof.
+  split; [|split; [|split; [vmr|split; [vmr|split]]]].
+  - destruct (C13_union_hull (L := Qc_laws) (win 1 4) (win 2 6) ltac:(sinv)
+                ltac:(sinv) eq_refl) as (u & H1 & H2 & _ & H4).
+    exists u. split; [exact H1|]. split; [exact H2|]. split; [|exact H4].
+    exact (ok_inj _ _ _ H1 ltac:(vmr)).
+  - destruct (C13_union_hull (L := Qc_laws) (win 0 2) (win 4 6) ltac:(sinv)
+                ltac:(sinv) eq_refl) as (u & H1 & _ & _ & H4).
+    exists u. split; [exact H1|].
+    assert (E : u = win 0 6) by exact (ok_inj _ _ _ H1 ltac:(vmr)).
+    split; [exact E|]. split; [exact (H4 3%N)|]. subst u.
+    split; [split; nfact|]. split; intros [H H']; revert H H'; nfact.
+  - exact (C13_union_comm (L := Qc_laws) (win 1 4) (win 2 6) ltac:(sinv)
+             ltac:(sinv) eq_refl).
+  - exact (C13_union_idem (L := Qc_laws) (win 1 4) ltac:(sinv)).
+Qed.
+
+Example NV_C13_inter_mem :
+  (exists u, calc_inter (win 1 4) (win 2 6) = Ok u /\ SInv u /\ u = win 2 4 /\
+             forall i, mem i u <-> mem i (win 1 4) /\ mem i (win 2 6)) /\
+  calc_inter (win 2 6) (win 3 5) = Ok (win 3 5) /\      (* nested *)
+  calc_inter (win 0 2) (win 1 4) = Ok (win 1 2) /\      (* touching: one common point *)
+  calc_inter (win 0 2) (win 4 6) = Ok (win 0 0) /\      (* separated: empty *)
+  calc_inter (win 1 4) (win 2 6) = calc_inter (win 2 6) (win 1 4) /\
+  calc_inter (win 1 4) (win 1 4) = Ok (win 1 4) /\
+  calc_inter (win 1 4) (mkSup h6 2 5) = Throw DIFFERING_GRIDS /\
+  calc_union (win 1 4) (mkSup h6 2 5) = Throw DIFFERING_GRIDS.
+Proof.
+  split; [|split; [vmr|split; [vmr|split; [vmr|split; [|split; [|split]]]]]].
+  - destruct (C13_inter_mem (L := Qc_laws) (win 1 4) (win 2 6) ltac:(sinv)
+                ltac:(sinv) eq_refl) as (u & H1 & H2 & _ & H4).
+    exists u. split; [exact H1|]. split; [exact H2|]. split; [|exact H4].
+    exact (ok_inj _ _ _ H1 ltac:(vmr)).
+  - exact (C13_inter_comm (L := Qc_laws) (win 1 4) (win 2 6) ltac:(sinv)
+             ltac:(sinv) eq_refl).
+  - exact (C13_inter_idem (L := Qc_laws) (win 1 4) ltac:(sinv)).
+  - apply (C13_inter_differing (L := Qc_laws)). intros H. symmetry in H. exact (h6_neq H).
+  - apply (C13_union_differing (L := Qc_laws)). intros H. symmetry in H. exact (h6_neq H).
+Qed.
+
+Example NV_C13_assoc :
+  (do a <- calc_union (win 0 2) (win 1 4); calc_union a (win 4 6))
+  = (do b <- calc_union (win 1 4) (win 4 6); calc_union (win 0 2) b) /\
+  (do a <- calc_union (win 0 2) (win 1 4); calc_union a (win 4 6)) = Ok (win 0 6) /\
+  (do a <- calc_inter (win 0 5) (win 1 6); calc_inter a (win 2 4))
+  = (do b <- calc_inter (win 1 6) (win 2 4); calc_inter (win 0 5) b) /\
+  (do a <- calc_inter (win 0 5) (win 1 6); calc_inter a (win 2 4)) = Ok (win 2 4).
+Proof.
+  split; [|split; [vmr|split; [|vmr]]].
+  - exact (C13_union_assoc (L := Qc_laws) (win 0 2) (win 1 4) (win 4 6) ltac:(sinv)
+             ltac:(sinv) ltac:(sinv) eq_refl eq_refl).
+  - exact (C13_inter_assoc (L := Qc_laws) (win 0 5) (win 1 6) (win 2 4) ltac:(sinv)
+             ltac:(sinv) ltac:(sinv) eq_refl eq_refl).
+Qed.
+
+(* the index conversions at the largest value of the index type and around the
+   window 1..3 *)
+Example NV_C13_conversions :
+  rel_from_abs (win 1 4) 18446744073709551615 = None /\
+  ~ mem 18446744073709551615 (win 1 4) /\
+  interval_index (win 1 4) 18446744073709551615 = None /\
+  abs_from_rel (win 1 4) 18446744073709551615 = Throw UNDETERMINED /\
+  rel_from_abs (win 1 4) 3 = Some 2%N /\ abs_from_rel (win 1 4) 2 = Ok 3%N /\
+  interval_index (win 1 4) 3 = None /\ interval_index (win 1 4) 2 = Some 1%N /\
+  rel_from_abs (win 1 4) 0 = None /\ abs_from_rel (win 1 4) 3 = Throw UNDETERMINED.
+Proof.
+  assert (Hs : SInv (win 1 4)) by sinv.
+  assert (Hr : rel_from_abs (win 1 4) 18446744073709551615 = None)
+    by (rewrite (C13_rel_from_abs (win 1 4) _ Hs) by vmr; vmr).
+  split; [exact Hr|].
+  split; [apply (C13_not_contained (win 1 4) _ Hs); [vmr | exact Hr]|].
+  split; [rewrite (C13_interval_index (win 1 4) _ Hs) by vmr; vmr|].
+  split; [rewrite (C13_abs_from_rel (win 1 4) _ Hs) by vmr; vmr|].
+  assert (H3 : rel_from_abs (win 1 4) 3 = Some 2%N)
+    by (rewrite (C13_rel_from_abs (win 1 4) _ Hs) by vmr; vmr).
+  split; [exact H3|].
+  split; [exact (C13_rel_abs_inverse (win 1 4) 3 2 Hs ltac:(vmr) H3)|].
+  split; [rewrite (C13_interval_index (win 1 4) _ Hs) by vmr; vmr|].
+  split; [rewrite (C13_interval_index (win 1 4) _ Hs) by vmr; vmr|].
+  split; [rewrite (C13_rel_from_abs (win 1 4) _ Hs) by vmr; vmr|].
+  rewrite (C13_abs_from_rel (win 1 4) _ Hs) by vmr; vmr.
+Qed.
+
+Example NV_C13_view :
+  sup_size (win 1 4) = 3%N /\ sup_points (win 1 4) = [qc 1 2; qc 3 2; qc 2 1] /\
+  num_intervals (win 1 4) = 2%N /\ num_intervals (win 2 3) = 0%N /\ num_intervals (win 0 0) = 0%N /\
+  sup_at (win 1 4) 2 = Ok (qc 2 1) /\ sup_at (win 1 4) 3 = Throw INVALID_ACCESS /\
+  sup_at (win 1 4) 18446744073709551615 = Throw INVALID_ACCESS /\
+  sup_front (win 1 4) = Ok (qc 1 2) /\ sup_back (win 1 4) = Ok (qc 2 1) /\
+  sup_front (win 0 0) = Throw INVALID_ACCESS /\
+  sup_eqb (win 1 4) (win 1 4) = true /\ sup_eqb (win 1 4) (win 1 5) = false.
+Proof.
+  assert (Hs : SInv (win 1 4)) by sinv.
+  destruct (C13_view_size (win 1 4) Hs) as [V1 V2].
+  split; [rewrite V2; vmr|]. split; [vmr|].
+  split; [rewrite (C13_view_intervals (win 1 4) Hs); vmr|].
+  split; [rewrite (C13_view_intervals (win 2 3) ltac:(sinv)); vmr|].
+  split; [rewrite (C13_view_intervals (win 0 0) ltac:(sinv)); vmr|].
+  split; [rewrite (C13_view_at (win 1 4) _ Hs) by vmr; vmr|].
+  split; [rewrite (C13_view_at (win 1 4) _ Hs) by vmr; vmr|].
+  split; [rewrite (C13_view_at (win 1 4) _ Hs) by vmr;
+          rewrite nnth_none by nfact; reflexivity|].
+  split; [rewrite (C13_view_front (win 1 4) Hs); vmr|].
+  split; [rewrite (C13_view_back (win 1 4) Hs); vmr|].
+  split; [rewrite (C13_view_front (win 0 0) ltac:(sinv)); vmr|].
+  split.
+  - apply (C13_eq_spec (L := Qc_laws)). split; [reflexivity|]. left. split; reflexivity.
+  - apply not_true_is_false. intros H. apply (C13_eq_spec (L := Qc_laws)) in H.
+    destruct H as [_ [[_ H]|[H _]]]; revert H; nfact.
+Qed.
+
+Example NV_C13_generated_definitions_agree :
+  SupportGen.G.size 6 1 4 = sup_size (win 1 4) /\ SupportGen.G.size 6 1 4 = 3%N /\
+  SupportGen.G.intervalIndexFromAbsolute 6 1 4 18446744073709551615
+  = interval_index (win 1 4) 18446744073709551615 /\
+  SupportGen.G.intervalIndexFromAbsolute 6 1 4 18446744073709551615 = None /\
+  SupportGen.G.valid 6 1 4 = true /\ SupportGen.G.numberOfIntervals 6 1 4 = 2%N.
+Proof.
+  destruct (C13_generated_definitions_agree Qc (win 1 4) ltac:(sinv))
+    as (H1 & _ & _ & _ & H5 & _ & H7 & H8 & _).
+  split; [exact H1|]. split; [vmr|]. split; [exact (H5 18446744073709551615%N ltac:(vmr))|]. split; [vmr|].
+  split; [exact H8 | transitivity (num_intervals (win 1 4)); [exact H7 | vmr]].
+Qed.
+
+(* ====================================================================== *)
+(* C15                                                                     *)
+(* ====================================================================== *)
+
+(* a spline with intervals whose coefficients all vanish *)
+Definition s0 : spline Qc := mkSpl (win 1 4) 1 [[qc 0 1; qc 0 1]; [qc 0 1; qc 0 1]].
+Lemma s0_inv : SplInv s0. Proof. splinv. Qed.
+
+Example NV_C15_is_zero :
+  is_zero s0 = true /\ (forall x, spl_eval s0 x = Ok f0) /\
+  is_zero sz = true /\ (forall x, spl_eval sz x = Ok f0) /\
+  is_zero sa = false /\ ~ (forall x, spl_eval sa x = Ok f0) /\ spl_eval sa (qc 9 5) = Ok (qc 599 1200).
+Proof.
+  assert (H0 : is_zero s0 = true) by vmr. assert (Hz : is_zero sz = true) by vmr.
+  split; [exact H0|]. split; [exact (proj1 (C15_is_zero Qc QcOps Qc_laws s0 s0_inv) H0)|].
+  split; [exact Hz|]. split; [exact (proj1 (C15_is_zero Qc QcOps Qc_laws sz sz_inv) Hz)|].
+  assert (Ha : is_zero sa = false) by vmr.
+  split; [exact Ha|]. split; [|okqc].
+  intros H. apply (C15_is_zero Qc QcOps Qc_laws sa sa_inv) in H. congruence.
+Qed.
+
+Example NV_C15_overlap :
+  check_overlap sa sb = Ok true /\ (exists k, imem k (ssup sa) /\ imem k (ssup sb)) /\
+  (exists r, spl_mul sa sb = Ok r /\ nintervals (ssup r) <> 0%N) /\
+  check_overlap sa sc = Ok false /\        (* touching at the point 1/2 *)
+  ~ (exists k, imem k (ssup sa) /\ imem k (ssup sc)) /\
+  check_overlap sc sd = Ok false /\        (* separated *)
+  check_overlap sb se = Ok true /\         (* nested *)
+  check_overlap sa sz = Ok false /\        (* no interval at all *)
+  check_overlap sa sb = check_overlap sb sa /\
+  (exists b, check_overlap sa sh = Ok b).  (* total even across grids *)
+Proof.
+  assert (H1 : check_overlap sa sb = Ok true) by vmr.
+  assert (H2 : check_overlap sa sc = Ok false) by vmr.
+  split; [exact H1|].
+  split; [exact (proj1 (C15_overlap Qc QcOps Qc_laws sa sb sa_inv sb_inv eq_refl) H1)|].
+  split; [exact (proj1 (C15_overlap_product Qc QcOps Qc_laws sa sb sa_inv sb_inv eq_refl) H1)|].
+  split; [exact H2|].
+  split; [intros H; apply (C15_overlap Qc QcOps Qc_laws sa sc sa_inv sc_inv eq_refl) in H; congruence|].
+  split; [vmr|]. split; [vmr|]. split; [vmr|].
+  split; [exact (C15_overlap_sym Qc QcOps Qc_laws sa sb sa_inv sb_inv eq_refl)|].
+  exact (C15_overlap_total Qc QcOps sa sh sa_inv sh_inv).
+Qed.
+
+Example NV_C15_eq :
+  spl_eqb sa sa = true /\ spl_eqb sa sq = false /\
+  spl_eqb sa (mkSpl (win 1 4) 2 (scoefs sa)) = true /\
+  (forall x, spl_eval sa x = spl_eval (mkSpl (win 1 4) 2 (scoefs sa)) x) /\
+  (* two interval-free splines with different (empty / one-point) windows *)
+  spl_eqb sz (mkSpl (win 2 3) 1 []) = false /\
+  spl_eqb sa sq = spl_eqb sq sa.
+Proof.
+  split; [apply (C15_eq_refl Qc QcOps Qc_laws)|]. split; [vmr|].
+  assert (E : spl_eqb sa (mkSpl (win 1 4) 2 (scoefs sa)) = true)
+    by (apply (C15_eq_copy Qc QcOps Qc_laws); reflexivity).
+  split; [exact E|].
+  split; [exact (C15_eq_eval Qc QcOps Qc_laws sa _ sa_inv sa_inv E)|].
+  split; [|apply (C15_eq_sym Qc QcOps Qc_laws)].
+  apply not_true_is_false. intros H. apply (C15_eq Qc QcOps Qc_laws) in H.
+  destruct H as (_ & [[_ H]|[_ H]] & _); revert H; nfact.
+Qed.
+
+(* ====================================================================== *)
+(* C17                                                                     *)
+(* ====================================================================== *)
+
+(* The hypotheses of C17_spec describe an n-point Gauss-Legendre rule: for
+   EVERY n it must integrate all polynomials of degree <= 2n-1 exactly.  The
+   Gauss-Legendre nodes are irrational for n >= 2, so Boost's rule itself has
+   no counterpart over Qc, and no such family of rules is constructed here;
+   that hypothesis (rule_exact) is therefore NOT witnessed in this file.  The
+   other hypothesis (the rule depends on the values of the integrand only) is
+   witnessed by the midpoint rule, for which C17_sum_over_common_intervals is
+   instantiated; the remaining C17 theorems have no rule hypothesis. *)
+Definition mid_rule : nat -> (Qc -> Qc) -> Qc -> Qc -> Qc :=
+  fun _ f a b => ((b - a) * f ((a + b) / f2))%F.
+
+Lemma mid_rule_ext : forall n (g h : Qc -> Qc) a b,
+  (forall x, g x = h x) -> mid_rule n g a b = mid_rule n h a b.
+Proof. intros n g h a b H. unfold mid_rule. rewrite H. reflexivity. Qed.
+
+Example NV_C17_sum_over_common_intervals :
+  integrate mid_rule 2 (fun x => peval [qc 1 1; qc 2 1] x) sq sw
+  = Ok (fsum (fun k => mid_rule 2
+                 (fun x => (peval [qc 1 1; qc 2 1] x * peval (piece sq k) (x - mid g6 k)
+                            * peval (piece sw k) (x - mid g6 k))%F)
+                 (gnth g6 k) (gnth g6 (k + 1))) (interval_list (win 2 6))) /\
+  integrate mid_rule 2 (fun x => peval [qc 1 1; qc 2 1] x) sq sw = Ok (qc 15 1) /\
+  integrate mid_rule 2 (fun x => peval [qc 1 1; qc 2 1] x) sc sd = Ok f0 /\
+  integrate mid_rule 2 (fun x => peval [qc 1 1; qc 2 1] x) sq sh = Throw DIFFERING_GRIDS.
+Proof.
+  split; [|split; [okqc|split]].
+  - exact (C17_sum_over_common_intervals Qc QcOps Qc_laws mid_rule mid_rule_ext 2 _ sq sw (win 2 6)
+             sq_inv sw_inv eq_refl ltac:(vmr)).
+  - apply (C17_no_common_interval Qc QcOps Qc_laws mid_rule 2 _ sc sd (win 0 0) sc_inv sd_inv eq_refl);
+      vmr.
+  - apply (C17_differing_grids Qc QcOps Qc_laws). exact (sh_grid_neq sq eq_refl).
+Qed.
+
+(* the analytic side of C17_spec: the weight 1 + 2x as an operator expression *)
+Example NV_C17_weight :
+  bilinear OId (elab (weight_expr [qc 1 1; qc 2 1])) sq sw = Ok (qc 1875941 92160) /\
+  peval (dsem (weight_expr [qc 1 1; qc 2 1]) g6 2 (piece sw 2)) (qc 1 20)
+  = (peval [qc 1 1; qc 2 1] (qc 1 20 + mid g6 2) * peval (piece sw 2) (qc 1 20))%F /\
+  out_ord (elab (weight_expr [qc 1 1; qc 2 1])) 1 = 2%nat /\
+  horner (qc 9 5) [qc 1 1; qc 2 1; qc 3 1] (qc 7 4)
+  = peval [qc 1 1; qc 2 1; qc 3 1] (qc 9 5 - qc 7 4)%F.
+Proof.
+  split; [okqc|].
+  split; [apply (C17_weight_is_multiplication Qc QcOps Qc_laws); discriminate|].
+  split; [exact (C17_weight_order Qc QcOps [qc 1 1; qc 2 1] 1)|].
+  apply (C17_horner Qc QcOps Qc_laws). discriminate.
+Qed.
+
+(* ====================================================================== *)
+(* C18 (the examples of Proofs_Threads.v, through the property theorems)    *)
+(* ====================================================================== *)
+
+Example NV_C18_interleave_deterministic (t : tid) :
+  sched_ok thr_own thr_s1 /\ sched_ok thr_own thr_s2 /\
+  outs t (snd (run_sched gauss_solve thr_init thr_s1)) = snd (run gauss_solve thr_init (proj t thr_s1)) /\
+  (forall i, thr_own i = Some t ->
+     lookup (fst (run_sched gauss_solve thr_init thr_s1)) i
+     = lookup (fst (run gauss_solve thr_init (proj t thr_s1))) i) /\
+  (* nothing is vacuously equal because everything failed *)
+  forallb (fun x => is_ok (snd x)) (snd (run_sched gauss_solve thr_init thr_s1)) = true /\
+  proj 1%nat thr_s1 = thr_a /\ proj 2%nat thr_s1 = thr_b.
+Proof.
+  split; [exact thr_s1_ok|]. split; [exact thr_s2_ok|].
+  destruct (C18_interleave_deterministic Qc QcOps gauss_solve thr_own thr_s1 thr_init t thr_s1_ok)
+    as [H1 H2].
+  split; [exact H1|]. split; [exact H2|]. split; [exact (proj1 thr_all_ok)|].
+  destruct thr_proj as (P1 & P2 & _). split; [exact P1 | exact P2].
+Qed.
+
+Example NV_C18_schedule_independent (t : tid) : (t = 1 \/ t = 2)%nat ->
+  outs t (snd (run_sched gauss_solve thr_init thr_s1))
+  = outs t (snd (run_sched gauss_solve thr_init thr_s2)) /\
+  (forall i, (i < 10)%nat ->
+     lookup (fst (run_sched gauss_solve thr_init thr_s1)) i = lookup thr_init i) /\
+  lookup (fst (run_sched gauss_solve thr_init thr_s1)) 20 <> lookup thr_init 2.
+Proof.
+  intros Ht. split; [|split].
+  - apply (C18_schedule_independent Qc QcOps gauss_solve thr_own thr_s1 thr_s2 thr_init t
+             thr_s1_ok thr_s2_ok).
+    destruct thr_proj as (H1 & H2 & H3 & H4). destruct Ht as [-> | ->]; congruence.
+  - intros i Hi. apply (C18_shared_never_change Qc QcOps gauss_solve thr_own thr_s1 thr_init i thr_s1_ok).
+    unfold thr_own. apply Nat.ltb_lt in Hi. rewrite Hi. reflexivity.
+  - exact (proj1 thr_owned_changed).
+Qed.
+
+Example NV_C18_discipline_needed :
+  proj 1%nat thr_bad1 = proj 1%nat thr_bad2 /\ proj 2%nat thr_bad1 = proj 2%nat thr_bad2 /\
+  outs 1%nat (snd (run_sched gauss_solve thr_init thr_bad1))
+  <> outs 1%nat (snd (run_sched gauss_solve thr_init thr_bad2)) /\ ~ sched_ok thr_own thr_bad1.
+Proof. exact C18_discipline_needed. Qed.
+
+(* ====================================================================== *)
+(* C19                                                                     *)
+(* ====================================================================== *)
+
+Example NV_C19_laws_satisfiable : Laws QcOps.
+Proof. exact C19_laws_satisfiable. Qed.
+
+Example NV_C19_exact_at_Qc :
+  (exists u r, calc_inter (ssup sa) (ssup sb) = Ok u /\ spl_mul sa sb = Ok r /\ SplInv r /\
+     forall k x, den r k x = (den sa k x * den sb k x)%F) /\
+  (exists r, apply (elab e4) sa = Ok r /\ SplInv r /\
+     forall k u, peval (piece r k) u = peval (dsem e4 (sgridp sa) k (piece sa k)) u) /\
+  den (nth 3 nv_basis dflt_spline) 2 (qc 9 5) = B nv_ks 2 3 (qc 9 5) /\
+  bilinear (elab e61) (elab e62) sq sw
+  = Ok (fsum (fun k => defint (pmul (dsem e61 (sgridp sq) k (piece sq k))
+                                     (dsem e62 (sgridp sq) k (piece sw k)))
+                              (halfwidth (sgridp sq) k)) (interval_list (win 2 6))).
+Proof.
+  split; [|split; [|split]].
+  - destruct (C19_arithmetic_exact_at_Qc sa sb sa_inv sb_inv eq_refl)
+      as (u & r & H1 & H2 & H3 & _ & _ & H6).
+    exists u, r. auto.
+  - destruct (C19_operators_exact_at_Qc e4 sa sa_inv e4_factors e4_scalars)
+      as (r & H1 & H2 & _ & _ & H5).
+    exists r. auto.
+  - apply (C19_generator_exact_at_Qc nv_ks 2 nv_basis 3 2 (qc 9 5) nv_ks_nondecreasing
+             nv_ks_two_distinct nv_ks_len);
+      [vm_compute; lia | exact nv_basis_eq | vm_compute; lia | vm_compute; lia | vmr | vmr].
+  - exact (C19_forms_exact_at_Qc e61 e62 sq sw (win 2 6) sq_inv sw_inv eq_refl
+             e61_factors e62_factors e61_scalars e62_scalars ltac:(vmr)).
+Qed.
+
+(* ====================================================================== *)
+(* C20                                                                     *)
+(* ====================================================================== *)
+
+Lemma qc_list_eq (a b : list Qc) : list_eqb a b = true -> a = b.
+Proof. apply (list_eqb_eq (L := Qc_laws)). Qed.
+
+(* a dense solver for the example skeletons: Gauss elimination of Solver.v; the
+   guard makes the result size equal to the size of the right-hand side for
+   EVERY input, which is all the theorems ask of Eigen's solver *)
+Definition nv_solve (m : list (list Qc)) (r : list Qc) : list Qc :=
+  let sys := map (fun '(row, b) => mkRow (combine (seq 0 (length row)) row) b) (combine m r) in
+  let x := gauss_solve (length r) sys in
+  if (length x =? length r)%nat then x else map (fun _ => f0) r.
+
+Lemma nv_solve_len : forall m r, length (nv_solve m r) = length r.
+Proof.
+  intros m r. unfold nv_solve. cbv zeta.
+  match goal with |- length (if ?c then _ else _) = _ => destruct c eqn:E end;
+    [apply Nat.eqb_eq, E | apply map_length].
+Qed.
+
+(* steady-state diffusion with the piecewise linear coefficient sw on the whole
+   grid g6, quadratic basis, boundary values 5 and 7 *)
+Example NV_C20_diffusion :
+  exists r, diffusion 2 nv_solve sw (qc 5 1) (qc 7 1) = Ok r /\ SplInv r /\ sgridp r = g6 /\
+    sord r = 2%nat /\ spl_eval r (qc 0 1) = Ok (qc 5 1) /\ spl_eval r (qc 5 1) = Ok (qc 7 1) /\
+    (exists basis sys, diff_basis 2 (ssup sw) = Ok basis /\ length basis = 7%nat /\
+       diffusion_system 2 sw (qc 5 1) (qc 7 1) = Ok sys /\ length (ds_inner sys) = 5%nat /\
+       (* the solver did solve the 5 x 5 Galerkin system *)
+       mat_apply (ds_mat sys) (nv_solve (ds_mat sys) (ds_rhs sys)) = ds_rhs sys) /\
+    diff_basis 2 (win 1 4) = Throw INCONSISTENT_DATA.
+Proof.
+  assert (Hn : nintervals (ssup sw) <> 0%N) by nfact.
+  assert (Hw : sstart (ssup sw) = 0%N /\ sstop (ssup sw) = nlen (sgridp sw)) by (split; reflexivity).
+  destruct (C20_diffusion_no_ub Qc QcOps Qc_laws 2 nv_solve sw (qc 5 1) (qc 7 1) sw_inv Hn
+              ltac:(lia) Hw nv_solve_len) as (r & Er & Ir & Gr & Or); [vm_compute; lia|].
+  exists r. split; [exact Er|]. split; [exact Ir|]. split; [exact Gr|]. split; [exact Or|].
+  destruct (C20_diffusion_end_values Qc QcOps Qc_laws 2 nv_solve sw (qc 5 1) (qc 7 1) r sw_inv Hn
+              ltac:(lia) Hw nv_solve_len Er) as [E0 E5].
+  split; [exact E0|]. split; [exact E5|]. split.
+  - destruct (C20_diffusion_system_shape Qc QcOps Qc_laws 2 sw (qc 5 1) (qc 7 1) sw_inv Hn
+                ltac:(lia) Hw) as (basis & sys & H1 & H2 & H3 & H4 & _).
+    destruct (C20_diffusion_basis Qc QcOps Qc_laws 2 sw sw_inv Hn ltac:(lia) Hw)
+      as (basis' & H1' & H5 & _).
+    exists basis, sys. split; [exact H1|].
+    split; [rewrite (ok_inj _ _ _ H1 H1'); exact H5|]. split; [exact H2|].
+    split; [exact H4|]. subst_ok H2. apply qc_list_eq. vmr.
+  - apply (C20_diffusion_subwindow_refused Qc QcOps Qc_laws 2 (win 1 4) ltac:(sinv) g6_inv);
+      [nfact | intros [H _]; discriminate H].
+Qed.
+
+(* the example of Proofs_Examples.v, re-exported *)
+Example NV_C20_diffusion_reexport :
+  (exists r, diffusion 2 ex_solve ex_d (qc 5 1) (qc 7 1) = Ok r /\ SplInv r) /\
+  (forall r, diffusion 2 ex_solve ex_d (qc 5 1) (qc 7 1) = Ok r ->
+             spl_eval r (qc 0 1) = Ok (qc 5 1) /\ spl_eval r (qc 3 1) = Ok (qc 7 1)).
+Proof. destruct diffusion_nonvacuous as (H1 & H2 & _). split; [exact H1 | exact H2]. Qed.
+
+(* the Schroedinger example: the potential sw shifted by the constant 5/3 *)
+Definition nv_pot : list (spline Qc) * list (list Qc) * list (list Qc) :=
+  match pot_matrices 2 sw with Ok x => x | _ => ([], [], []) end.
+Lemma nv_pot_eq : pot_matrices 2 sw = Ok (fst (fst nv_pot), snd (fst nv_pot), snd nv_pot).
+Proof. vmr. Qed.
+
+Definition nv_pot' : list (spline Qc) * list (list Qc) * list (list Qc) :=
+  match pot_matrices 2 (spl_shift sw (qc 5 3)) with Ok x => x | _ => ([], [], []) end.
+
+Example NV_C20_potential_shift :
+  exists h', pot_matrices 2 (spl_shift sw (qc 5 3)) = Ok (fst (fst nv_pot), h', snd nv_pot) /\
+    length (fst (fst nv_pot)) = 3%nat /\ length h' = 3%nat /\
+    (forall i j, nth j (nth i h' []) f0
+                 = (nth j (nth i (snd (fst nv_pot)) []) f0 + qc 5 3 * nth j (nth i (snd nv_pot) []) f0)%F) /\
+    map (map this) (snd (fst nv_pot))
+    = [[1339 # 1080; -43 # 3240; -119 # 2160]; [-43 # 3240; 61433 # 103680; -9671 # 17280];
+       [-119 # 2160; -9671 # 17280; -1513 # 2304]]%Q /\
+    map (map this) (snd nv_pot)
+    = [[46 # 135; 349 # 2160; 1 # 720]; [349 # 2160; 7 # 12; 319 # 1440]; [1 # 720; 319 # 1440; 49 # 80]]%Q /\
+    map (map this) h'
+    = [[5857 # 3240; 553 # 2160; -19 # 360]; [553 # 2160; 162233 # 103680; -1097 # 5760];
+       [-19 # 360; -1097 # 5760; 839 # 2304]]%Q.
+Proof.
+  destruct (C20_potential_shift Qc QcOps Qc_laws 2 sw (spl_shift sw (qc 5 3)) (qc 5 3)
+              (fst (fst nv_pot)) (snd (fst nv_pot)) (snd nv_pot) sw_inv
+              (spl_shift_inv sw (qc 5 3) sw_inv) eq_refl
+              (conj eq_refl eq_refl)
+              (fun k u Hk => piece_spl_shift (L := Qc_laws) sw (qc 5 3) k u sw_inv Hk) nv_pot_eq)
+    as (h' & H1 & H2 & _ & H4).
+  exists h'. split; [exact H1|]. split; [vmr|]. split; [rewrite H2; vmr|]. split; [exact H4|].
+  split; [vmr|]. split; [vmr|].
+  assert (E : pot_matrices 2 (spl_shift sw (qc 5 3))
+              = Ok (fst (fst nv_pot), snd (fst nv_pot'), snd nv_pot)) by vmr.
+  pose proof (ok_inj _ _ _ H1 E) as E'. injection E' as ->. vmr.
+Qed.
+
+(* an "eigen solver" that only respects the result sizes *)
+Definition nv_eigs (h s : list (list Qc)) : list (Qc * list Qc) :=
+  map (fun _ => (qc 1 1, map (fun _ => qc 1 1) h)) h.
+Lemma nv_eigs_sized : eigs_sized nv_eigs.
+Proof.
+  intros h s. split; [apply map_length|]. apply Forall_forall. intros e He.
+  apply in_map_iff in He as (x & <- & _). apply map_length.
+Qed.
+
+Example NV_C20_potential_count :
+  (exists l, potential_solve 2 nv_eigs sw = Ok l /\ length l = 3%nat /\
+     Forall (fun p => SplInv (snd p) /\ sgridp (snd p) = g6 /\ sord (snd p) = 2%nat) l) /\
+  potential_solve 6 nv_eigs sw = Throw UNDETERMINED /\
+  potential_solve_old 2 nv_eigs sw = UB OOBRead.
+Proof.
+  split; [|split].
+  - destruct (C20_potential_count Qc QcOps Qc_laws 2 nv_eigs sw sw_inv nv_eigs_sized ltac:(nfact))
+      as (l & H1 & H2 & H3).
+    exists l. split; [exact H1|]. split; [exact H2 | exact H3].
+  - apply (C20_potential_few_grid_points Qc QcOps Qc_laws 6 nv_eigs sw sw_inv). vmr.
+  - apply (C20_old_loop_reads_out_of_range Qc QcOps Qc_laws 2 nv_eigs sw sw_inv nv_eigs_sized);
+      [nfact | vm_compute; lia].
+Qed.
